@@ -92,6 +92,12 @@ func (r *Run) checkCopiedField(sums *Summaries, cc copyCtor, sm *Summary, f *typ
 		// Link.Params is a fresh slice whose elements are the Params of the trait stored in Link.Trait
 		tr := sm.Fields[p.Field(PkgN, "Link", "Trait")]
 		el := sm.Elems[f]
+		elWhy := ""
+		if el == nil && written && sm.Fn != nil && sm.Fn.Name() == cc.fn {
+			// the filled slice reaches the field through phis / a nested constructor (summary.go only follows a
+			// make that is stored directly): same claim, established on the SSA of the constructor chain
+			el, elWhy = c06CtorElems(sums, sm.Fn, f, 0)
+		}
 		ok := tr != nil && el != nil
 		if ok {
 			for _, a := range t.Alternatives() {
@@ -120,7 +126,10 @@ func (r *Run) checkCopiedField(sums *Summaries, cc copyCtor, sm *Summary, f *typ
 			}
 		}
 		if !ok {
-			r.Bad(construct, pos, fmt.Sprintf("Link.Params = %v with elements %v is not a fresh copy of the parameters of the link's trait %v", t, el, tr))
+			if elWhy != "" {
+				elWhy = " (" + elWhy + ")"
+			}
+			r.Bad(construct, pos, fmt.Sprintf("Link.Params = %v with elements %v is not a fresh copy of the parameters of the link's trait %v%s", t, el, tr, elWhy))
 			return
 		}
 		r.OK(construct, pos, fmt.Sprintf("Params <- fresh slice, elements copied from %s (the trait stored in the link)", el))
@@ -193,6 +202,12 @@ func C06(p *Prog, r *Run) {
 					}
 					for k, v := range inner.Elems {
 						exp.Elems[k] = Subst(v, lt.Args)
+					}
+					if pf := p.Field(PkgN, "Link", "Params"); exp.Elems[pf] == nil && inner.Fields[pf] != nil {
+						// filled slice handed to the field through phis / a nested constructor: see c06CtorElems
+						if el, _ := c06CtorElems(sums, inner.Fn, pf, 0); el != nil {
+							exp.Elems[pf] = Subst(el, lt.Args)
+						}
 					}
 					lsrc := &Term{Op: "field", Name: f.Name(), Obj: f, Args: []*Term{src}}
 					lcc := copyCtor{tn: "Link", fn: cc.fn + "→" + inner.Fn.Name()}
